@@ -586,8 +586,10 @@ Definition c09_match_violations (cases : list match_case) : list Z :=
     negb (match_obs_ok u k r mods obs)
     || negb (Bool.eqb obs obs2)) cases.
 
-(* string stream: (table, key, Key.String(), Key.MatchString(Key.String())) *)
-Definition string_case := (utab * key * list Z * bool)%type.
+(* string stream: (table, key, Key.String(), Key.MatchString(Key.String()), a second key built by the
+   harness as a variation of the first - other text / alternate codes / Num Lock / press or repeat, Caps
+   Lock where String() does not look at it, the code points BS and DEL exchanged - and its String()) *)
+Definition string_case := (utab * key * list Z * bool * key * list Z)%type.
 
 (* keys whose String() is promised to be a binding that matches them: not a release event (String
    drops the modifiers of a release), no Caps Lock (String upper-cases the rune), a key that has a
@@ -601,16 +603,12 @@ Definition string_selfmatch_scope (u : uni) (k : key) : bool :=
 
 Definition c09_string_mismatches (cases : list string_case) : list Z :=
   bad_indices (fun c =>
-    let '(t, k, s, ms) := c in
+    let '(t, k, s, ms, k2, s2) := c in
     let u := uni_of t in
-    negb (covered t (k_code k) && forallb (covered t) s)
+    negb (covered t (k_code k) && forallb (covered t) s && covered t (k_code k2) && forallb (covered t) s2)
     || negb (zlist_eqb (key_string u k) s)
+    || negb (zlist_eqb (key_string u k2) s2)
     || negb (Bool.eqb (match_string u k s) ms)) cases.
-
-Definition c09_string_violations (cases : list string_case) : list Z :=
-  bad_indices (fun c =>
-    let '(t, k, s, ms) := c in
-    string_selfmatch_scope (uni_of t) k && negb ms) cases.
 
 (* binding-string stream: (table, key, binding string, Some (mask, rune, k.Matches(rune, mask)) when the
    string was printed from that binding, k.MatchString(string)) *)
@@ -850,6 +848,14 @@ Definition kdesc_equivb (a b : key) : bool :=
   (desc_code (k_code a) =? desc_code (k_code b)) && zlist_eqb (mods_prefix a) (mods_prefix b) &&
   (Bool.eqb (has_bit (k_mods a) ModCapsLock) (has_bit (k_mods b) ModCapsLock)
    || (caps_blind (k_code a) && caps_blind (k_code b))).
+
+(* string stream, property side: the key's own String() is a binding that matches it (in scope), and
+   String() does not distinguish the key from its variation when [kdesc_equivb] identifies them *)
+Definition c09_string_violations (cases : list string_case) : list Z :=
+  bad_indices (fun c =>
+    let '(t, k, s, ms, k2, s2) := c in
+    (string_selfmatch_scope (uni_of t) k && negb ms)
+    || (kdesc_equivb k k2 && negb (zlist_eqb s s2))) cases.
 
 Definition desc_enc_ok (c : chord) (s : kseq) : bool :=
   seq_dom_ok s && (guard_esc_upper_seq c s || kdesc_equivb (decode_key ascii_uni s) (chord_key c)).
